@@ -381,19 +381,26 @@ class _LocalDateTimePatternParser(_IPatternParser[LocalDateTime]):
         if len(pattern) == 0:
             raise InvalidPatternError(_TextErrorMessages.FORMAT_STRING_EMPTY)
 
+        def invariant_standard(cached: LocalDateTimePattern) -> IPattern[LocalDateTime]:
+            # The cached implementations are built around the default template value: for any other
+            # template value (or calendar), build their custom pattern text around ours instead.
+            if self.__template_value_date.at(self.__template_value_time) == LocalDateTimePattern._DEFAULT_TEMPLATE_VALUE:
+                return cached
+            return parse_no_standard_expansion(cached.pattern_text)
+
         if len(pattern) == 1:
             match pattern:
                 # Invariant standard patterns return cached implementations.
                 case "o" | "O":
-                    return LocalDateTimePattern._Patterns._bcl_round_trip_pattern_impl
+                    return invariant_standard(LocalDateTimePattern._Patterns._bcl_round_trip_pattern_impl)
                 case "r":
-                    return LocalDateTimePattern._Patterns._full_round_trip_pattern_impl
+                    return invariant_standard(LocalDateTimePattern._Patterns._full_round_trip_pattern_impl)
                 case "R":
-                    return LocalDateTimePattern._Patterns._full_round_trip_without_calendar_impl
+                    return invariant_standard(LocalDateTimePattern._Patterns._full_round_trip_without_calendar_impl)
                 case "s":
-                    return LocalDateTimePattern._Patterns._general_iso_pattern_impl
+                    return invariant_standard(LocalDateTimePattern._Patterns._general_iso_pattern_impl)
                 case "S":
-                    return LocalDateTimePattern._Patterns._extended_iso_pattern_impl
+                    return invariant_standard(LocalDateTimePattern._Patterns._extended_iso_pattern_impl)
                 # Other standard patterns expand the pattern text to the appropriate custom pattern.
                 # Note: we don't just recurse, as otherwise a FullDateTimePattern of 'F' would cause a stack overflow.
                 case "f":
